@@ -66,28 +66,45 @@ def check_strides(model, rep):
     flat = model.func('evaluable:_flat')
     if not any(isinstance(c, ast.Call) and src(c.func) == 'Ravel' for c in ast.walk(flat.node)):
         raise AnalysisError('evaluable._flat no longer flattens with Ravel (row-major): R05.6 needs review')
-    asg = [s_ for s_ in find_stmts(f.body, lambda s_: isinstance(s_, ast.Assign)) if src(s_.targets[0]) == 'strides']
-    uses = [c for c in calls_in(f.node) if src(c.func) == 'map' and len(c.args) == 3 and src(c.args[0]) in ('operator.mul', 'mul') and src(c.args[2]) == 'strides']
-    flats = [s_ for s_ in find_stmts(f.body, lambda s_: isinstance(s_, ast.Assign)) if isinstance(s_.value, ast.Call) and src(s_.value.func) == '_flat' and src(s_.value.args[0]) == 'self.dofmap']
-    if len(asg) != 1 or len(uses) != 1 or len(flats) != 1:
-        raise AnalysisError('Inflate._assparse: stride vector, its use or the flattened dof map not found')
+    # The method is interpreted (sa.miniexec, nothing of nutils runs) for dof maps of 1..4 axes with symbolic axis lengths and one chunk of
+    # symbolic indices; the index handed to Take(<flattened dof map>, .) must be the row-major flat index, however the strides are spelled.
+    import itertools
+    import operator
+    import functools
+    from sa.miniexec import MiniExec, Opaque, Sym, Returned, AssertionFailed
     bad = None
     try:
         for n in range(1, 5):
             i, sh = symbols('i', n), symbols('s', n)
-            ex = Exec({}, binder=lambda t, sh=sh: list(sh) if t == 'self.dofmap.shape' else None)
-            strides = ex.ev(asg[0].value)
-            got = Poly.const(0)
-            for a_, b_ in zip(i, strides):
-                got = got + a_ * ex.num(b_)
-            if len(strides) != n or not got == row_major(i, sh):
-                bad = (n, strides, [product(sh[k + 1:]) for k in range(n)])
+            dofmap = Sym(shape=tuple(sh), ndim=n)
+            keep, values = Opaque('k0'), Opaque('values')
+            me = MiniExec({'self': Sym(dofmap=dofmap, func=Sym(ndim=n + 1, _assparse=[(keep, *i, values)])), '_flat': Opaque('_flat'), 'Take': Opaque('Take'), 'appendaxes': Opaque('appendaxes'),
+                           'itertools': Sym(accumulate=itertools.accumulate, chain=itertools.chain), 'operator': Sym(mul=operator.mul, add=operator.add),
+                           'functools': Sym(reduce=functools.reduce), 'map': map})
+            try:
+                me.run(f.body)
+                raise Unsupported('no return')
+            except Returned as r:
+                chunks = list(r.value)
+            if len(chunks) != 1 or len(chunks[0]) != 3 or chunks[0][0] is not keep or chunks[0][2] is not values:
+                bad = (n, 'the chunk is no longer (kept indices, inflated index, values)', None)
                 break
-    except Unsupported as e:
-        raise AnalysisError(f'Inflate._assparse: the stride expression uses a construct the symbolic executor does not know: {e}')
-    fmt = lambda v: '(' + ', '.join(repr(x) for x in v) + ')'
-    rep.ob('R05.6', f.key, f.where(asg[0]), bad is None, 'the stride vector of the flattened dof map is row-major for 1..4 axes (symbolic evaluation)' if bad is None else
-           f'for a dof map of {bad[0]} axes `{src(asg[0].value)[:70]}` evaluates to strides {fmt(bad[1])}; the row-major flattening of _flat needs {fmt(bad[2])}: the sparse values are scattered to the wrong dofs', statement='row-major-strides')
+            take = chunks[0][1]
+            if not isinstance(take, Opaque) or not take.origin or take.origin[0] != 'Take' or len(take.origin[1]) != 2:
+                bad = (n, 'the inflated index is not Take(flattened dof map, flat index)', None)
+                break
+            flat, got = take.origin[1]
+            if not isinstance(flat, Opaque) or not flat.origin or flat.origin[0] != '_flat' or flat.origin[1][0] is not dofmap:
+                bad = (n, 'the dof map is not flattened with _flat(self.dofmap)', None)
+                break
+            got = Poly._coerce(got)
+            if got is None or not got == row_major(i, sh):
+                bad = (n, f'the flat index is {got!r}', row_major(i, sh))
+                break
+    except (Unsupported, AssertionFailed, TypeError, ValueError, IndexError, AttributeError, KeyError) as e:
+        raise AnalysisError(f'Inflate._assparse: the method uses a construct the interpreter does not know: {type(e).__name__}: {e}')
+    rep.ob('R05.6', f.key, f.where(), bad is None, 'the index into the flattened dof map is the row-major flat index for 1..4 axes (interpreted)' if bad is None else
+           f'for a dof map of {bad[0]} axes {bad[1]}' + (f'; the row-major flattening of _flat needs {bad[2]!r}: the sparse values are scattered to the wrong dofs' if bad[2] is not None else ''), statement='row-major-strides')
 
 
 def check_clusters(model, rep):
